@@ -407,6 +407,15 @@ def oracle_api(case):
     return v
 
 
+def vifix(lines, w, c):
+    """Vi navigation mode: the cursor does not rest behind the last character of a non-empty line"""
+    t = lines[w]
+    a = t.rfind("\n", 0, c) + 1
+    e = t.find("\n", c)
+    e = len(t) if e < 0 else e
+    return c - 1 if (c == e and e > a) else c
+
+
 def oracle_keys(case):
     v = []
     ic, vi = case["ic"], case["vi"]
@@ -425,9 +434,11 @@ def oracle_keys(case):
         searchkey = name != "type" or o0["searching"]
         if searchkey and o1["lines"] != o0["lines"]:
             bad("text changed", "a search key changed the text of the buffer / history")
-        if name in ("type", "bs") and o0["searching"] and main0 != main1:
+        leaves = vi and o0["searching"] and not o1["searching"]   # back to Vi navigation mode: cursor fix
+        same = main0 if not leaves else (o0["lines"], o0["widx"], vifix(o0["lines"], o0["widx"], o0["cur"]))
+        if name in ("type", "bs") and o0["searching"] and same != main1:
             bad("typing moved the real cursor", "typing in the search field changed the searched buffer")
-        if name in ("start", "abort") and main0 != main1:
+        if name in ("start", "abort") and same != main1:
             bad("start/abort moved the cursor", "start/abort changed the searched buffer")
         if name == "accept" and o0["searching"]:
             if o0["field"]:
